@@ -29,7 +29,11 @@ class C18(object):
             "(product of marginals mixed with a small perturbation, optionally one variable through a Z-channel: atoms of "
             "1e-5..1e-2). A partition object may be looked at (str, repr with and without ditParams['repr.print'], "
             "to_string(digits=0..6), get_atoms) before or after it is read; every atom and query is then evaluated "
-            "again on the same object. Non-trivial = n >= 3 and at least 3 positive outcomes")
+            "again on the same object. Sessions (third stream, kinds `connected` / `dual` with `before`): one or two "
+            "connected / connected dual profiles of other tables of the same number of variables are taken first in the "
+            "same process (the case's positive weights in the same order on another support, the same table again, or an "
+            "unrelated one; also xor-like tables with uniform or 4:3:2:1 weights) and every member is judged by the "
+            "statement. Non-trivial = n >= 3 and at least 3 positive outcomes")
     tolerances = {'closed forms': 'atol 1e-9', 'connected informations (maxent optimiser inside)': '2e-3',
                   'symbolic atoms': 'exact rational coefficients',
                   'connected dual informations (sum from order 2, order 1)': 'atol 1e-9 + 2 (n + 1) (h + m (H_P + 2 log2 e)), h and m '
@@ -110,6 +114,65 @@ class C18(object):
             if rng.random() < 0.45:
                 self.add_space(rng, c)
             yield c
+        # ---- a third stream: sessions.  The statement holds for every distribution whatever was profiled before it in
+        # the same process: a connected / connected dual profile is preceded by one or two profiles (of either class)
+        # of OTHER distributions of the same number of variables -- the same positive weights, in the same order, on
+        # another support (what a result remembered by the probabilities alone would confuse), the same distribution
+        # again, or an unrelated one.  Every member of the session is judged by the statement.
+        for _ in range(n_cases // 6):
+            n = rng.choice([2, 3, 3, 3, 3, 4])
+            c = gen.rand_dist_case(rng, nmin=n, nmax=n, amax=2 if n == 4 else 3, bases=['linear'], allow_space=False,
+                                   max_support=8, klasses=('str', 'tuple'))
+            if c['names']:
+                c['names'] = list('XYZW')[:n]
+            gen.avoid_subnull(c)
+            c['kind'] = rng.choice(['connected', 'connected', 'dual'])
+            if rng.random() < 0.3:
+                c.update(rng.choice(self.NAMED3))
+                c['names'] = list('XYZ') if c['names'] else None
+                n = 3
+            if rng.random() < 0.3:
+                self.add_space(rng, c)
+            c['before'] = []
+            for _k in range(rng.choice([1, 1, 2])):
+                how = rng.choice(['same-weights', 'same-weights', 'same-weights', 'same', 'unrelated'])
+                c['before'].append(self.session_member(rng, c, how))
+            yield c
+
+    # three-variable tables whose positive weights are few and simple (uniform on four outcomes, or 4:3:2:1): many
+    # different supports carry the very same weights
+    NAMED3 = [dict(n=3, outs=[[0, 0, 0], [0, 1, 1], [1, 0, 1], [1, 1, 0]], pmf=[w_ for w_ in ws_], alphabets=[[0, 1]] * 3,
+                   space=None, spacekind='none', style='named3')
+              for ws_ in (['1/4'] * 4, ['2/5', '3/10', '1/5', '1/10'])]
+
+    @staticmethod
+    def session_member(rng, c, how):
+        """An earlier member of the session of case `c`: which profile class is asked for, and of which table."""
+        n = c['n']
+        cls = rng.choice(['connected', 'dual'])
+        if how == 'same':
+            return {'how': how, 'kind': cls, 'outs': [list(o) for o in c['outs']], 'pmf': list(c['pmf'])}
+        if how == 'unrelated':
+            o = gen.rand_dist_case(rng, nmin=n, nmax=n, amax=2, bases=['linear'], allow_space=False, max_support=6,
+                                   klasses=(c['klass'],))
+            gen.avoid_subnull(o)
+            return {'how': how, 'kind': cls, 'outs': o['outs'], 'pmf': o['pmf']}
+        # the positive weights of c in the order of its outcomes (ranks; the order dit lists them in when no sample
+        # space is declared), laid on another support of the same size
+        pos = sorted((list(o), p) for o, p in zip(c['outs'], c['pmf']) if Fraction(p) > 0)
+        w = [p for _, p in pos]
+        alphs = [sorted(set(o[i] for o in c['outs'])) for i in range(n)]
+        size = math.prod(len(a) for a in alphs)
+        if size <= len(w) or all(len(a) == 1 for a in alphs) or (n <= 3 and size <= 12 and rng.random() < 0.25):
+            i = rng.randrange(n)
+            alphs[i] = sorted(alphs[i] + [rng.choice([s for s in range(6) if s not in alphs[i]])])
+        full = [list(o) for o in itertools.product(*alphs)]
+        outs = sorted(rng.sample(full, len(w)))
+        for _t in range(20):
+            if outs != [o for o, _ in pos]:
+                break
+            outs = sorted(rng.sample(full, len(w)))
+        return {'how': how, 'kind': cls, 'outs': outs, 'pmf': w}
 
     LOOKS = ['str', 'str', 'repr', 'repr-print', 'to_string:0', 'to_string:1', 'to_string:2', 'to_string:3', 'to_string:4',
              'to_string:6', 'get_atoms', 'get_atoms:raw']
@@ -208,6 +271,9 @@ class C18(object):
             r.features.append('looked-at=%s' % (('before-reads' if case.get('render_first') else 'after-reads')
                                                 if case.get('render') else 'never'))
             r.features += ['look=%s' % s for s in sorted(set(case.get('render') or []))]
+        if case['kind'] in ('connected', 'dual'):
+            r.features.append('session=%d-earlier-profiles' % len(case.get('before') or []))
+            r.features += ['earlier=%s:%s' % (m['how'], m['kind']) for m in case.get('before') or []]
         try:
             getattr(self, 'run_' + case['kind'])(case, drv, r)
         except core.DriverError:
@@ -499,7 +565,45 @@ class C18(object):
         elif abs(sum(cp.values()) - sum(H([i]) for i in range(n))) > 1e-9:
             r.oracle_fail = 'scales sum to %r, marginal entropies sum to %r' % (sum(cp.values()), sum(H([i]) for i in range(n)))
 
+    def session(self, case, drv, r):
+        """The earlier members of the case's session (case['before']): each is profiled in this process, in order, and
+        judged by the statement like any other case.  False if one of them already fails."""
+        for k, m in enumerate(case.get('before') or []):
+            sc = dict(case)
+            sc.update({'kind': m['kind'], 'outs': m['outs'], 'pmf': m['pmf'], 'before': None, 'space': None,
+                       'spacekind': 'none', 'post': None, 'rare': False,
+                       'alphabets': [sorted(set(o[i] for o in m['outs'])) for i in range(case['n'])]})
+            r2 = core.Result()
+            getattr(self, 'judge_' + m['kind'])(sc, drv, r2)
+            if r2.bad():
+                what = 'member %d of the session (%s profile of %s with weights %s, the table of the case %s)' % (
+                    k + 1, m['kind'], m['outs'], m['pmf'],
+                    {'same': 'itself', 'same-weights': 'with its positive weights on another support',
+                     'unrelated': 'replaced by an unrelated one'}[m['how']])
+                if r2.oracle_fail:
+                    r.oracle_fail = '%s: %s' % (what, r2.oracle_fail)
+                if r2.mismatch:
+                    r.mismatch = '%s: %s' % (what, r2.mismatch)
+                r.detail = r2.detail
+                return False
+        return True
+
+    def after_session(self, case, r):
+        if case.get('before') and r.oracle_fail:
+            r.oracle_fail = 'after the profiles %s in the same process: %s' % (
+                ', '.join('%s(%s; %s)' % (m['kind'], m['outs'], ' '.join(m['pmf'])) for m in case['before']), r.oracle_fail)
+
     def run_connected(self, case, drv, r):
+        if self.session(case, drv, r):
+            self.judge_connected(case, drv, r)
+            self.after_session(case, r)
+
+    def run_dual(self, case, drv, r):
+        if self.session(case, drv, r):
+            self.judge_dual(case, drv, r)
+            self.after_session(case, r)
+
+    def judge_connected(self, case, drv, r):
         from dit.profiles import ConnectedInformations
         d, rows, ftab, H, X = self.setup(case)
         n = case['n']
@@ -535,7 +639,7 @@ class C18(object):
                 dmass += q_
         return dropped + dmass * (HP + 2 / math.log(2))
 
-    def run_dual(self, case, drv, r):
+    def judge_dual(self, case, drv, r):
         """ConnectedDualInformations: the chain of ConnectedInformations (uniform, product of the marginals, maximum
         entropy given all k-way marginals, ..., the distribution itself) measured by the dual total correlation B.
         Order k is B(chain[k]) - B(chain[k-1]); B is 0 on the uniform distribution of a product space and on a product of
